@@ -563,15 +563,16 @@ fn run_ncl(bytes: Arc<Vec<u8>>, o: &Opts) -> Report {
     let parsed_ok = strict.as_deref().map(|s| s.starts_with("ok")).unwrap_or(false);
     let fuel = o.fuel;
 
-    // the Program-level path (parse error rendering with the stdlib files around, or evaluation)
-    let evaled = prog_stage(&mut rep, o, "eval", &bytes, InputFormat::Nickel, move |prog, _rep| {
-        nickel_lang_core::verif_hooks::set_fuel(fuel);
-        let v = prog.eval()?;
-        nickel_lang_core::verif_hooks::set_fuel(u64::MAX);
-        let s = format!("{v}");
-        Ok(format!("ok:pretty={}:fields={}", s.len(), top_fields(&v).join("/")))
-    });
+    // an input that does not parse: the Program-level path only (parse error rendering with the
+    // stdlib files around)
     if !parsed_ok {
+        prog_stage(&mut rep, o, "eval", &bytes, InputFormat::Nickel, move |prog, _rep| {
+            nickel_lang_core::verif_hooks::set_fuel(fuel);
+            let v = prog.eval()?;
+            nickel_lang_core::verif_hooks::set_fuel(u64::MAX);
+            let s = format!("{v}");
+            Ok(format!("ok:pretty={}", s.len()))
+        });
         return rep;
     }
 
@@ -590,6 +591,15 @@ fn run_ncl(bytes: Arc<Vec<u8>>, o: &Opts) -> Report {
     prog_stage(&mut rep, o, "typecheck_walk", &bytes, InputFormat::Nickel, move |prog, _rep| {
         prog.typecheck(TypecheckMode::Walk)?;
         Ok("ok".into())
+    });
+    // (the stages that may legitimately run out of budget come after the ones that may not)
+    // the Program-level path (parse error rendering with the stdlib files around, or evaluation)
+    let evaled = prog_stage(&mut rep, o, "eval", &bytes, InputFormat::Nickel, move |prog, _rep| {
+        nickel_lang_core::verif_hooks::set_fuel(fuel);
+        let v = prog.eval()?;
+        nickel_lang_core::verif_hooks::set_fuel(u64::MAX);
+        let s = format!("{v}");
+        Ok(format!("ok:pretty={}:fields={}", s.len(), top_fields(&v).join("/")))
     });
     prog_stage(&mut rep, o, "export", &bytes, InputFormat::Nickel, move |prog, rep| {
         nickel_lang_core::verif_hooks::set_fuel(fuel);
@@ -749,6 +759,7 @@ struct Worker {
     stdin: std::process::ChildStdin,
     rx: mpsc::Receiver<Msg>,
     err: Arc<Mutex<Vec<u8>>>,
+    err_done: mpsc::Receiver<()>,
 }
 
 fn spawn_worker(mem_kb: u64) -> Worker {
@@ -785,11 +796,15 @@ fn spawn_worker(mem_kb: u64) -> Worker {
     });
     let err = Arc::new(Mutex::new(Vec::new()));
     let err2 = err.clone();
+    let (etx, err_done) = mpsc::channel();
     std::thread::spawn(move || {
         let mut buf = [0u8; 4096];
         loop {
             match stderr.read(&mut buf) {
-                Ok(0) | Err(_) => break,
+                Ok(0) | Err(_) => {
+                    let _ = etx.send(());
+                    break;
+                }
                 Ok(n) => {
                     let mut g = err2.lock().unwrap();
                     g.extend_from_slice(&buf[..n]);
@@ -801,7 +816,7 @@ fn spawn_worker(mem_kb: u64) -> Worker {
             }
         }
     });
-    Worker { child, stdin, rx, err }
+    Worker { child, stdin, rx, err, err_done }
 }
 
 fn supervisor(args: &[String]) {
@@ -850,7 +865,8 @@ fn supervisor(args: &[String]) {
                 }
                 Ok(Msg::Eof) | Err(mpsc::RecvTimeoutError::Disconnected) => {
                     let st = w.child.wait().ok();
-                    std::thread::sleep(Duration::from_millis(30));
+                    // the worker's stderr is complete once its reader saw EOF
+                    let _ = w.err_done.recv_timeout(Duration::from_secs(5));
                     let tail = String::from_utf8_lossy(&w.err.lock().unwrap()).into_owned();
                     let how = match st {
                         Some(s) => match s.signal() {
@@ -1025,7 +1041,31 @@ fn lextrace(src: &str) -> String {
             _ => {}
         }
     }
-    items.join(" ")
+    // the error the strict parser reports for the same text (variant name and the byte offsets of
+    // its spans, read off the derived Debug output of ParseError, which is plain data)
+    let alloc = AstAlloc::new();
+    let mut files = Files::empty();
+    let id = files.add("input.ncl", src);
+    let pe = match TermParser::new().parse_strict(&alloc, id, Lexer::new(src)) {
+        Ok(_) => "PE ok".to_string(),
+        Err(errs) => match errs.errors.first() {
+            None => "PE none".to_string(),
+            Some(e) => {
+                let d = format!("{e:?}");
+                let name: String = d.chars().take_while(|c| c.is_alphanumeric()).collect();
+                let mut nums = Vec::new();
+                let mut rest = d.as_str();
+                while let Some(i) = rest.find("ByteIndex(") {
+                    let tail = &rest[i + 10..];
+                    let n: String = tail.chars().take_while(|c| c.is_ascii_digit()).collect();
+                    nums.push(n);
+                    rest = tail;
+                }
+                format!("PE {name} {}", nums.join("-"))
+            }
+        },
+    };
+    format!("{} || {pe}", items.join(" "))
 }
 
 fn main() {
